@@ -285,7 +285,9 @@ func (server *Server) receive(conn net.Conn, tlsState *tls.ConnectionState) erro
 	}
 
 	verifYield("conn.register", conn)
-	server.AddConn(handlerConn)
+	if err := server.AddConn(handlerConn); err != nil {
+		return err
+	}
 	defer func() {
 		server.RemoveConn(handlerConn)
 		verifYield("conn.deregister", conn)
